@@ -26,15 +26,12 @@ def Cost.max : Cost → Cost → Cost
 
 /-- `sequence_type::cost` (sequence.hpp:198-216): walk the pending list; the index of `h`, or
     `~0U` at the first unsatisfied predecessor, or `~0U` when `h` is not in the list. -/
-def seqCostFrom [DecidableEq α] (sat : α → Bool) (h : α) : List α → Nat → Cost
-  | [], _ => none
-  | x :: xs, k =>
-    if x = h then some k
-    else if sat x then seqCostFrom sat h xs (k + 1)
-    else none
+def seqCostGo [DecidableEq α] (sat : α → Bool) (h : α) : Nat → List α → Cost
+  | _, [] => none
+  | k, x :: xs => if x = h then some k else if sat x then seqCostGo sat h (k + 1) xs else none
 
 def seqCost [DecidableEq α] (sat : α → Bool) (h : α) (l : List α) : Cost :=
-  seqCostFrom sat h l 0
+  seqCostGo sat h 0 l
 
 /-- `sequence_type::retire_until` (sequence.hpp:218-230), guarded by the handle being linked
     (`sequence_matcher::retire_predecessors`): drop from the front until `h`; a handle that is
@@ -47,28 +44,29 @@ def retireUntil [DecidableEq α] (h : α) (l : List α) : List α :=
 def orderOf (costs : List Cost) : Cost :=
   costs.foldl Cost.max (some 0)
 
-/-- State of the loop of `trompeloeil::find` (mock.hpp:2306-2332). -/
-structure FindSt (α : Type) where
-  first   : Option α      -- first_match
-  lowest  : Cost          -- lowest_cost
-  visited : List α        -- elements whose `matches` has been evaluated (reverse order)
+/-- `trompeloeil::find` (mock.hpp:2306-2332).  The accumulator is `(first_match, lowest_cost)`;
+    a match of cost 0 returns at once, otherwise the accumulator is replaced iff there is none yet
+    or the cost is strictly lower. -/
+def findGo (m : α → Bool) (c : α → Cost) : Option (α × Cost) → List α → Option α
+  | first, [] => first.map (·.1)
+  | first, e :: rest =>
+    if m e then
+      if c e = some 0 then some e
+      else match first with
+        | none => findGo m c (some (e, c e)) rest
+        | some (f, lc) =>
+          if Cost.lt (c e) lc then findGo m c (some (e, c e)) rest
+          else findGo m c (some (f, lc)) rest
+    else findGo m c first rest
 
-/-- `trompeloeil::find`: returns the match and the list of elements that were examined
-    (in examination order) — the latter determines which WITH clauses were evaluated. -/
-def findLoop (m : α → Bool) (c : α → Cost) : List α → FindSt α → Option α × List α
-  | [], st => (st.first, st.visited.reverse)
-  | x :: xs, st =>
-    if m x then
-      match c x with
-      | some 0 => (some x, (x :: st.visited).reverse)
-      | cx =>
-        if st.first.isNone || Cost.lt cx st.lowest
-        then findLoop m c xs { first := some x, lowest := cx, visited := x :: st.visited }
-        else findLoop m c xs { st with visited := x :: st.visited }
-    else findLoop m c xs { st with visited := x :: st.visited }
+/-- the elements whose `matches()` the loop of `find` evaluates: everything up to and including
+    the first match of cost 0 (the early `return`), else the whole list. -/
+def examined (m : α → Bool) (c : α → Cost) : List α → List α
+  | [] => []
+  | e :: rest => if m e && (c e == some 0) then [e] else e :: examined m c rest
 
 def find (m : α → Bool) (c : α → Cost) (l : List α) : Option α × List α :=
-  findLoop m c l { first := none, lowest := none, visited := [] }
+  (findGo m c none l, examined m c l)
 
 /-- `match_parameters` (mock.hpp:2121-2143): the `all_true = all_true && …` fold. -/
 def paramsOk : List (Int → Bool) → List Int → Bool
